@@ -1061,6 +1061,7 @@ class TrainableDist(DelayDistribution):
                             None,
                             1,
                         ),
+                        out_axes=1,  # (window, batch): keep the window as leading axis before restoring the payload shape
                     )(ts_recv_interp, ts_recv_mask, _fp_batch).reshape(_f_shape)
                 else:
                     res = jnp.interp(ts_recv_interp, ts_recv_mask, _fp)
